@@ -71,6 +71,7 @@ static char *tostr_buf;                     /* 4096-byte heap block */
  * this way in the middle of a call is an error like any other: it must still be set when the call returns (C09). */
 static int CBMODE;
 static int cb_raised;
+static int user_ctx;      /* what the application hands to its callback */
 static void count_cb(binson_parser *p, uint16_t ns, void *ctx)
 {
     (void) ns; (void) ctx;
@@ -264,6 +265,7 @@ static bool do_op(shadow *sh, int op, mismatch *mm, bool counting)
     }
     cb_count = 0; cb_maxused = used0; cb_raised = 0;
     if (!is_verifylike(op)) { p->cb = count_cb; p->cb_context = NULL; }
+    else { p->cb = count_cb; p->cb_context = &user_ctx; }     /* a user callback WITH a context is installed when to_string / print are called */
     vf_progress++;
     cur_op = op;
     switch (op) {
@@ -320,12 +322,19 @@ static bool do_op(shadow *sh, int op, mismatch *mm, bool counting)
     {
         volatile char here;
         uintptr_t top = (uintptr_t) &here, ctx = (uintptr_t) p->cb_context;
-        if (p->cb && p->cb != count_cb && p->cb_context && ctx < top && top - ctx < (1u << 20)) {      /* a context nobody will call is harmless */
+        if (p->cb && p->cb_context && ctx < top && top - ctx < (1u << 20)) {      /* any installed callback (the library's own or the user's) would be handed it; a context nobody will call is harmless */
             snprintf(mm->why, sizeof mm->why, "after %s the parser still holds cb_context pointing %zu bytes below the caller's frame, into a dead stack frame (cb %s)", opname[op],
                      (size_t) (top - ctx), p->cb == NULL ? "NULL" : (p->cb == count_cb ? "= the caller's" : "= a library-internal function"));
             snprintf(mm->sig, sizeof mm->sig, "dangling-stack-context:%s", opname[op]);
             mm->prop = P_C12 ? "C12" : "C01";      /* also C12: whatever the parser is used for next will run on that stale context */
             if (P_C01 || P_C12) return false;
+            mm->prop = NULL;
+        }
+        if (is_verifylike(op) && p->cb == count_cb && p->cb_context != NULL && p->cb_context != (void *) &user_ctx) {
+            snprintf(mm->why, sizeof mm->why, "after %s the application's callback is installed again but with a context the application never supplied", opname[op]);
+            snprintf(mm->sig, sizeof mm->sig, "foreign-callback-context:%s", opname[op]);
+            mm->prop = "C01";
+            if (P_C01) return false;
             mm->prop = NULL;
         }
         if (e1 == BINSON_ERROR_NONE && (p->state != L.st || (p->current_state && (p->current_state < L.st || p->current_state >= L.st + L.max_depth)))) {
